@@ -128,7 +128,7 @@ class SimNet:
         if down <= 0:
             loop.call_soon(_resolve)
         else:
-            loop.call_at((simclock.CLOCK.us + down) / 1e6, _resolve)
+            loop.call_at(loop.at_us(simclock.CLOCK.us + down), _resolve)
 
     def _mid(self) -> int:
         self.next_mid += 1
@@ -148,7 +148,7 @@ class SimNet:
         self.pending.append(msg)
         if timeout_s is None:
             return await fut
-        handle = loop.call_at((simclock.CLOCK.us + int(timeout_s * 1e6)) / 1e6,
+        handle = loop.call_at(loop.at_us(simclock.CLOCK.us + int(timeout_s * 1e6)),
                               lambda: (not fut.done()) and fut.set_exception(NetTimeout(url)))
         try:
             return await fut
@@ -240,7 +240,7 @@ class Sim:
             await asyncio.sleep(0)
             return
         fut = self.loop.create_future()
-        self.loop.call_at((simclock.CLOCK.us + us) / 1e6, lambda: (not fut.done()) and fut.set_result(None))
+        self.loop.call_at(self.loop.at_us(simclock.CLOCK.us + us), lambda: (not fut.done()) and fut.set_result(None))
         await fut
 
     def clock_jump(self, actor_id: str, us: int) -> None:
